@@ -41,6 +41,7 @@ type minst struct {
 	recDelta uint64 // recursion steps observed in the current step
 	peer     int    // index of the instance whose run is imported; -1 = itself
 	name     string
+	scratch  [8]byte // the bytes the atomic instructions work on
 }
 
 type model struct {
@@ -135,6 +136,13 @@ func (m *model) exec(i int, script uint64, depth, hdepth int) (uint32, *failure)
 		saw("hclose")
 		m.close(i, code)
 		return 0, &failure{Kind: "trap", Detail: "unreachable"}
+	case op >= opAtomicOK && op <= opAtomicUnaligned:
+		r, f := in.atomic(int(byte(rest)), int(op-opAtomicOK))
+		if f != nil {
+			return 0, f
+		}
+		in.log = append(in.log, uint32(r), uint32(r>>32))
+		return uint32(in.cnt), nil
 	case op >= opRec && op < opRec+nRecKinds:
 		in.recDirty = true
 		return 0, &failure{Kind: "stack"}
@@ -183,6 +191,85 @@ func (m *model) exec(i int, script uint64, depth, hdepth int) (uint32, *failure)
 	return r + 1, nil
 }
 
+// atomic models one 0xfe-prefixed instruction on the (unshared) memory of the instance.
+// mode 0 = at the scratch word, 1 = beyond the memory, 2 = at scratch+1.
+func (in *minst) atomic(sub, mode int) (uint64, *failure) {
+	if sub == 0x03 || sub >= nAtomicSubs || (sub > 0x03 && sub < 0x10) {
+		return 0, nil // fence and unassigned codes: nothing happens
+	}
+	is64, width := atomicShape(sub)
+	_ = is64
+	if mode == 2 && width > 1 {
+		return 0, &failure{Kind: "trap", Detail: "unaligned atomic"}
+	}
+	if mode == 1 {
+		return 0, &failure{Kind: "trap", Detail: "out of bounds memory access"}
+	}
+	if sub == 0x01 || sub == 0x02 {
+		return 0, &failure{Kind: "trap", Detail: "expected shared memory"}
+	}
+	if sub == 0x00 {
+		return 0, nil // nobody waits
+	}
+	off := 0
+	if mode == 2 {
+		off = 1
+	}
+	mask := ^uint64(0)
+	if width < 8 {
+		mask = 1<<(8*width) - 1
+	}
+	var old uint64
+	for i := uint32(0); i < width; i++ {
+		old |= uint64(in.scratch[off+int(i)]) << (8 * i)
+	}
+	v := atomicOperand(sub) & mask
+	if !is64 {
+		v = uint64(uint32(atomicOperand(sub))) & mask
+	}
+	store := func(x uint64) {
+		for i := uint32(0); i < width; i++ {
+			in.scratch[off+int(i)] = byte(x >> (8 * i))
+		}
+	}
+	switch {
+	case sub <= 0x16:
+		return old, nil
+	case sub <= 0x1d:
+		store(v)
+		return 0, nil
+	case sub <= 0x24:
+		store((old + v) & mask)
+	case sub <= 0x2b:
+		store((old - v) & mask)
+	case sub <= 0x32:
+		store(old & v)
+	case sub <= 0x39:
+		store(old | v)
+	case sub <= 0x40:
+		store(old ^ v)
+	case sub <= 0x47:
+		store(v)
+	default:
+		if old == 0 {
+			store(v)
+		}
+	}
+	return old, nil
+}
+
+var atomicNames = func() []string {
+	n := make([]string, nAtomicSubs)
+	n[0], n[1], n[2], n[3] = "notify", "wait32", "wait64", "fence"
+	shapes := []string{"i32", "i64", "i32.8", "i32.16", "i64.8", "i64.16", "i64.32"}
+	for g, name := range []string{"load", "store", "rmw.add", "rmw.sub", "rmw.and", "rmw.or", "rmw.xor", "rmw.xchg", "rmw.cmpxchg"} {
+		for k, sh := range shapes {
+			n[0x10+7*g+k] = sh + ".atomic." + name
+		}
+	}
+	return n
+}()
+
 // ---- scripts ----
 
 func pack(ops []int) uint64 {
@@ -222,6 +309,17 @@ func describeOps(ops []int) string {
 			parts = append(parts, fmt.Sprintf("%s(%d)%s", name, exitCodeOf(c), via))
 		case op == opPeek:
 			parts = append(parts, "host-reads-caller-memory"+via)
+		case op >= opAtomicOK && op <= opAtomicUnaligned:
+			sub := 0
+			if k+1 < len(ops) {
+				sub = ops[k+1] & 0xff
+				k++
+			}
+			name := fmt.Sprintf("atomic#%#x", sub)
+			if sub < nAtomicSubs && atomicNames[sub] != "" {
+				name = atomicNames[sub]
+			}
+			parts = append(parts, name+[]string{"@scratch", "@beyond-memory", "@odd-address"}[op-opAtomicOK])
 		case op == opNestLocal:
 			parts = append(parts, "call-local>")
 		case op == opNestPeer:
